@@ -61,3 +61,9 @@ Proof. exact mfi_zero_flow_nan. Qed.
 Theorem C08_K6_cci_residue :
   map (fun o => PrimFloat.ltb o (-66)%float) (last_out [oN 0 KCci (Pm 2 0 0 0); oB 0 0x1.dbe797425dc72p+5%float 0x1.dc43edf542661p+5%float 0x1.d48553697fea5p+5%float 0x1.d9df91474dde9p+5%float 0x1.b8d5539db1e1fp+12%float; oB 0 0x1.d8330719c8c68p+5%float 0x1.e7d36d8504e15p+5%float 0x1.d144f357efb48p+5%float 0x1.e554d2c86c031p+5%float 0x1p+0%float; oB 0 7 7 7 7 5; oB 0 7 7 7 7 5; oB 0 7 7 7 7 5]) = [true].
 Proof. vm_compute. reflexivity. Qed.
+
+
+(* CCI on a flat window of typical prices: exactly 0 in exact arithmetic (the binary64 residue is K6 above) *)
+From TA Require Import Proofs.XBands Proofs.XCci.
+Theorem C08_cci_flat_0 : forall p h tp v, flat v (lastn p (h ++ [tp])) -> lastn p (h ++ [tp]) <> [] -> cci_spec p h tp = Fin 0.
+Proof. exact cci_flat. Qed.
